@@ -1178,7 +1178,7 @@ ol, ul { padding-left: 2em; }
 
     def s_text_h(self, tag, attrs):
         """ Headings start """
-        level = int(attrs[(TEXTNS,'outline-level')])
+        level = int(attrs.get((TEXTNS,'outline-level'), 1))
         if level > 6: level = 6 # Heading levels go only to 6 in XHTML
         if level < 1: level = 1
         self.headinglevels[level] = self.headinglevels[level] + 1
@@ -1198,7 +1198,7 @@ ol, ul { padding-left: 2em; }
             from the first heading of any level.
         """
         self.writedata()
-        level = int(attrs[(TEXTNS,'outline-level')])
+        level = int(attrs.get((TEXTNS,'outline-level'), 1))
         if level > 6: level = 6 # Heading levels go only to 6 in XHTML
         if level < 1: level = 1
         lev = self.headinglevels[1:level+1]
